@@ -126,3 +126,29 @@ int guard_after_use(THING* t)
     return ERROR_INSUFFICIENT_MEMORY;
   return n;
 }
+
+/* R16.9: what an out-parameter holds is not released behind the caller's back */
+int out_dangling(int** out)
+{
+  *out = (int*) yr_malloc(4);
+  if (*out == NULL) return 1;
+  if (grow((struct box*) 0, 4) != 0)
+  {
+    yr_free(*out);                 /* *out keeps pointing to the freed block */
+    return 1;
+  }
+  return 0;
+}
+
+int out_reset(int** out)
+{
+  *out = (int*) yr_malloc(4);
+  if (*out == NULL) return 1;
+  if (grow((struct box*) 0, 4) != 0)
+  {
+    yr_free(*out);
+    *out = NULL;
+    return 1;
+  }
+  return 0;
+}
